@@ -161,3 +161,12 @@ def dep_flattened_composite(case):
                     else:
                         cur = M.find_message(api, fld.get("type_name", "")) if fld.get("type") == "message" else None
     return False
+
+
+def mixin_additional_binding_body_differs(case):
+    """service YAML: a mixin rule whose additional binding has another body spec than its primary binding"""
+    y = (case.get("options") or {}).get("service_yaml") or {}
+    for r in (y.get("http") or {}).get("rules", []):
+        if any(ab.get("body") != r.get("body") for ab in r.get("additional_bindings", [])):
+            return True
+    return False
